@@ -351,12 +351,18 @@ class PythonRegex(regex.Regex):
             elif len(rep) == 2:
                 n_rep, end = rep
                 repeated = self._find_repeated_sequence(res)
+                if n_rep == 0:
+                    # Zero repetition: only the empty word remains
+                    res[len(res) - len(repeated):] = ["$"]
                 for _ in range(n_rep - 1):
                     res.extend(repeated)
                 idx = end + 1
             elif len(rep) == 3:
                 min_rep, max_rep, end = rep
                 repeated = self._find_repeated_sequence(res)
+                if min_rep == 0:
+                    # No mandatory occurrence
+                    res[len(res) - len(repeated):] = ["$"]
                 for _ in range(min_rep - 1):
                     res.extend(repeated)
                 for _ in range(min_rep, max_rep):
